@@ -126,7 +126,7 @@ def _run_one(modname, params):
         d = InstanceResult(params.get('id', '?')).to_dict()
         name = type(e).__name__
         msg = f"{name}: {e}"
-        tb = traceback.format_exc(limit=12)
+        tb = traceback.format_exc(limit=int(os.environ.get("VERIF_TB", "12")))
         if name == 'Inconclusive':
             d['inconclusive'].append(msg)
         else:
